@@ -1054,6 +1054,15 @@ pub fn c05_extra_families() -> Vec<PFam> {
         pfam("ci-ext-then-prefix", vec![b("STATUS_Z"), b("status")], true),
         pfam("ci-prefix-then-ext", vec![b("Status"), b("sTATUS_q")], true),
         pfam("same-then-same", vec![b("ez"), b("ez"), b("tq")], false),
+        // the last ASCII byte (0x7F) and its neighbours among one / two /
+        // three start bytes (start-byte prefilters are ASCII-only)
+        pfam("start2-del", vec![vec![0x7F, b'a', b'b'], b("foo")], false),
+        pfam("start1-del", vec![vec![0x7F, b'a'], vec![0x7F, b'b']], false),
+        pfam("start3-del-7e", vec![vec![0x7F, b'a'], vec![0x7E, b'b'], b("cq")], false),
+        pfam("start2-7e", vec![vec![0x7E, b'a'], b("foo")], false),
+        pfam("start2-80", vec![vec![0x80, b'a'], b("foo")], false),
+        pfam("start2-nul", vec![vec![0x00, b'a'], b("foo")], false),
+        pfam("start3-nul-del", vec![vec![0x00, b'a'], vec![0x7F, b'a'], vec![0x01, b'a']], false),
     ]
 }
 
@@ -1393,7 +1402,7 @@ pub fn run_c05(rep: &Report) -> i32 {
     let cov = J::obj()
         .set("evaluations", J::i(ev.max(1)))
         .set("distinct_nontrivial", J::i(rep.get("comparisons_where_prefilter_ran")))
-        .set("rule", J::s("for every prefilter-targeting family (memmem, start bytes 1/2/3, rare bytes 1/2/3, packed, case-insensitive variants) x match kind x automaton kind: the same searcher built with prefilter(true) and prefilter(false) must agree on try_find, find_iter, is_match, existence of an earliest match and the overlapping iterator, for every haystack filler^i.core.filler^j (cores incl. trigger byte at every small distance before a true match), 5 span forms, unanchored and anchored; plus six lists with a 65535 / 65536 / 65539-byte pattern and its 8-byte prefix on four haystacks (nNFA). A comparison is non-trivial when the prefilter was actually invoked (hook counter)"))
+        .set("rule", J::s("for every prefilter-targeting family (memmem, start bytes 1/2/3, rare bytes 1/2/3, packed, case-insensitive variants) x match kind x automaton kind: the same searcher built with prefilter(true) and prefilter(false) must agree on try_find, find_iter, is_match, existence of an earliest match and the overlapping iterator, for every haystack filler^i.core.filler^j (cores incl. trigger byte at every small distance before and after a true match), 5 span forms, unanchored and anchored; plus six lists with a 65535 / 65536 / 65539-byte pattern and its 8-byte prefix on four haystacks (nNFA). A comparison is non-trivial when the prefilter was actually invoked (hook counter)"))
         .set("prefilter_variants_selected", J::Arr(rep.set_members("prefilter_variants_selected").into_iter().map(J::s).collect()))
         .set("exhaustive", J::Bool(true))
         .set("bounds", J::s(format!("total haystack length <= {}; offsets 0..={}", 2 * V + 8, imax(4, t))))
@@ -1773,6 +1782,39 @@ pub fn check_input_forms(rep: &Report, st: &mut Stats) {
                     (a, b2)
                 }));
                 st.add("input_forms", 1);
+                // ... also through the by-value builders, flags stated first
+                let by_value = catch_unwind(AssertUnwindSafe(|| {
+                    let mut v = vec![];
+                    let i = Input::new(h).anchored(Anchored::Yes).earliest(true).span(Span { start: s, end: e });
+                    v.push(("anchored().earliest().span()", (i.get_anchored().is_anchored(), i.get_earliest(), i.start(), i.end())));
+                    let i = Input::new(h).earliest(true).span(Span { start: s, end: e }).anchored(Anchored::Yes);
+                    v.push(("earliest().span().anchored()", (i.get_anchored().is_anchored(), i.get_earliest(), i.start(), i.end())));
+                    if s <= e {
+                        let i = Input::new(h).anchored(Anchored::Yes).earliest(true).range(s..e);
+                        v.push(("anchored().earliest().range()", (i.get_anchored().is_anchored(), i.get_earliest(), i.start(), i.end())));
+                        let mut i = Input::new(h).anchored(Anchored::Yes).earliest(true);
+                        i.set_range(s..e);
+                        v.push(("anchored().earliest() + set_range", (i.get_anchored().is_anchored(), i.get_earliest(), i.start(), i.end())));
+                        let mut i = Input::new(h).anchored(Anchored::Yes).earliest(true);
+                        i.set_end(e);
+                        i.set_start(s);
+                        v.push(("anchored().earliest() + set_end + set_start", (i.get_anchored().is_anchored(), i.get_earliest(), i.start(), i.end())));
+                        let i = Input::new(h).anchored(Anchored::Yes).span(s..e).earliest(true).anchored(Anchored::No);
+                        v.push(("anchored(Yes).span().earliest().anchored(No)", (!i.get_anchored().is_anchored(), i.get_earliest(), i.start(), i.end())));
+                    }
+                    v
+                }));
+                match by_value {
+                    Ok(v) => {
+                        for (name, t) in v {
+                            st.add("input_forms", 1);
+                            if t != (true, true, s, e) {
+                                bad(name, h, s, e, format!("(anchored as stated, earliest, start, end) = {:?}", t), "anchored, earliest and the span are independent of the order in which they are stated");
+                            }
+                        }
+                    }
+                    Err(p) => bad("flags then span (by value)", h, s, e, format!("PANIC {}", crate::aut::panic_msg(&p)), "no panic for a valid span"),
+                }
                 if got.as_ref().ok() != Some(&((true, true, s, e), (true, true, s, e))) {
                     bad("flags + span", h, s, e, format!("{:?}", got.map_err(|p| crate::aut::panic_msg(&p))), "anchored, earliest and the span are independent");
                 }
